@@ -41,13 +41,17 @@ pub struct PcParams {
     pub hold: bool,
     /// Every sample carries a tag with its serial number.
     pub tagged: bool,
+    /// With `tagged`: do not judge the tags (C03 runs tagged streams for the
+    /// code paths that only run with tags present, and leaves the tags
+    /// themselves to C02).
+    pub ignore_tags: bool,
 }
 
 impl PcParams {
     pub fn to_json(&self) -> Value {
         json!({"scenario":"pc","cap":self.cap,"pages":self.pages,"wscript":self.wscript,
             "rscript":self.rscript,"wneed_full":self.wneed_full,"rneed_full":self.rneed_full,"hold":self.hold,
-            "tagged":self.tagged})
+            "tagged":self.tagged,"ignore_tags":self.ignore_tags})
     }
     pub fn from_json(v: &Value) -> Self {
         let us = |k: &str| v[k].as_u64().unwrap() as usize;
@@ -63,6 +67,7 @@ impl PcParams {
             rneed_full: v["rneed_full"].as_bool().unwrap(),
             hold: v["hold"].as_bool().unwrap(),
             tagged: v["tagged"].as_bool().unwrap_or(false),
+            ignore_tags: v["ignore_tags"].as_bool().unwrap_or(false),
         }
     }
 }
@@ -86,6 +91,7 @@ fn pc_typed<T: Elem>(p: &PcParams) {
     let rscript = p.rscript.clone();
     let (wfull, rfull, hold) = (p.wneed_full, p.rneed_full, p.hold);
     let tagged = p.tagged;
+    let check_tags = p.tagged && !p.ignore_tags;
     let reader_alive = Arc::new(AtomicBool::new(true));
     let writer_alive = Arc::new(AtomicBool::new(true));
     let (ra, wa) = (reader_alive.clone(), writer_alive.clone());
@@ -147,7 +153,7 @@ fn pc_typed<T: Elem>(p: &PcParams) {
             let mut spins = 0;
             loop {
                 let (rb, tags) = r.read_buf().unwrap();
-                if tagged {
+                if check_tags {
                     let got: Vec<(usize, String)> =
                         tags.iter().map(|t| (t.pos(), format!("{}={:?}", t.key(), t.val()))).collect();
                     let want: Vec<(usize, String)> =
@@ -460,10 +466,18 @@ fn eos_nc_reader(p: &EosParams) {
     for i in 0..backlog {
         w.push(vec![i as u8], &[]);
     }
+    // What the reader knows to be queued (a lower bound): it takes packets
+    // only in groups of `need`, as a block that asked for `need` would, so a
+    // remainder smaller than `need` stays queued.
+    let pushed = Arc::new(AtomicUsize::new(backlog));
+    let pushed_w = pushed.clone();
     let writer_gone = Arc::new(AtomicBool::new(false));
     let wg = writer_gone.clone();
     let wt = thread::spawn(move || {
         for i in 0..j {
+            // Counted first: push() has a scheduling point after its unlock,
+            // and a reader that saw the packet but not the count would spin.
+            pushed_w.fetch_add(1, Ordering::SeqCst);
             w.push(vec![(backlog + i) as u8], &[]);
         }
         drop(w);
@@ -519,7 +533,8 @@ fn eos_nc_reader(p: &EosParams) {
             }
             // Pop what a block with this need would: `need` packets if there.
             let mut avail = Vec::new();
-            for _ in 0..need {
+            let known = pushed.load(Ordering::SeqCst) - got2.load(Ordering::SeqCst);
+            for _ in 0..(if known >= need { need } else { 0 }) {
                 match r.pop() {
                     Some((v, _)) => avail.push(v),
                     None => break,
